@@ -1692,3 +1692,14 @@ CASES += [
                     if upper_bound.0 > best_lb {
                         (best_lb, best_model) = self.marginal_map_h("""),
 ]
+
+# ------------------------------------------------------------------ SR-root
+CASES += [
+    dict(name="sr-root-rewritten", file="src/serialize/ser_bdd.rs", rule="SR", props=["C17"], expect="from_bdd:root-as-given",
+         old="""        let r = BDDSerializer::serialize_helper(bdd, &mut table, &mut nodes);""",
+         new="""        let r = BDDSerializer::serialize_helper(bdd.to_reg(), &mut table, &mut nodes);"""),
+    dict(name="sr-root-copied-ok", file="src/serialize/ser_bdd.rs", rule="SR", props=["C17", "C19"], expect=None,
+         old="""        let r = BDDSerializer::serialize_helper(bdd, &mut table, &mut nodes);""",
+         new="""        let root = bdd;
+        let r = BDDSerializer::serialize_helper(root, &mut table, &mut nodes);"""),
+]
